@@ -87,6 +87,11 @@ func firstRepoFrames(stack string) []string {
 func TestCheck(t *testing.T) {
 	r := ev.Start(t, "C12", "exploration")
 	defer r.Finish()
+	defer func() {
+		if p := recover(); p != nil {
+			r.Fatalf("harness panic: %v | %s", p, firstRepoFrames(strings.ReplaceAll(string(debug.Stack()), "verif/c12", "nuts-node/verif/c12")))
+		}
+	}()
 	r.SetRule("cases = (generated presentation definition accepted by the bundled schema and parser, generated wallet); the definition generator is schema-driven " +
 		"(fields with const/enum/pattern(0|1 group)/type filters on string/number/boolean/array values, optional fields, per-descriptor and top-level format, " +
 		"submission_requirements all/pick with every subset of count/min/max, from_nested depth<=3); wallets hold matching, near-matching (one constraint off) and decoy " +
@@ -283,6 +288,7 @@ func evaluate(r *ev.Run, in *caseIn) (out *caseOut) {
 	undecided := map[string]bool{} // (descriptor, credential) pairs the reference does not decide
 	matchable := map[string]bool{}
 	caseUnspec := ""
+	errorProne := false // a filter is aimed at an object value somewhere: pe answers with an error, depending on the order in which credentials are tried
 	for _, x := range rd.Descs {
 		sat[x.ID] = map[string]bool{}
 		for _, c := range w.creds {
@@ -294,6 +300,9 @@ func evaluate(r *ev.Run, in *caseIn) (out *caseOut) {
 			if u != "" {
 				caseUnspec = string(u)
 				undecided[pair(x.ID, c.key)] = true
+				if u != "filter-without-type" {
+					errorProne = true
+				}
 			}
 			sat[x.ID][c.key] = ok
 			if ok {
@@ -441,7 +450,7 @@ func evaluate(r *ev.Run, in *caseIn) (out *caseOut) {
 	}
 
 	// --- wallet side, the real thing: holder.Wallet.BuildSubmission (presenter.go) with a signed JWT presentation
-	if caseUnspec == "" || found {
+	if !errorProne {
 		realPresenter(out, in, walletVCs, found, decidedExists && !exists, selection, byRaw, contradictory)
 	}
 
@@ -495,6 +504,9 @@ func evaluate(r *ev.Run, in *caseIn) (out *caseOut) {
 		return
 	}
 	out.count("submissions_built", 1)
+	if errorProne {
+		return
+	}
 	if contradictory {
 		return // bounds no number satisfies: what wallet and verifier should make of them is not decided by the property
 	}
